@@ -48,9 +48,17 @@ inline void rec(int sid, uint8_t meth, uint8_t ctlsid, const void* self) { if (g
 
 struct EvA { int v; }; struct QA { int v; };
 #if VX_MANUAL
-using Cfg = ffsm2::Config::ManualActivation;
+using Cfg0 = ffsm2::Config::ManualActivation;
 #else
-using Cfg = ffsm2::Config;
+using Cfg0 = ffsm2::Config;
+#endif
+// -DVX_TASKCAP=<n>: a task capacity chosen by the user, smaller than the number of states (per-state plan bookkeeping must not be sized by it)
+#if defined(VX_TASKCAP) && defined(FFSM2_ENABLE_PLANS)
+using Cfg = Cfg0::TaskCapacityN<VX_TASKCAP>;
+static constexpr int TASKCAP = VX_TASKCAP;
+#else
+using Cfg = Cfg0;
+static constexpr int TASKCAP = VX_NSTATES;
 #endif
 using M = ffsm2::MachineT<Cfg>;
 template <int I> struct St; struct Rt;
@@ -317,11 +325,13 @@ static void plan_sweep() {
 	check_marks(m, rp, "after succeed/fail without a plan");
 	// fresh machine: chain of N-1 tasks (capacity defaults to the state count)
 	m.~Inst(); activate(0); Inst& q = *inst(0); g_plan_ok = g_plan_fail = 0;
-	{ auto p = q.plan(); for (int i = 0; i + 1 < N; ++i) if (!p.change(static_cast<ffsm2::StateID>(i), static_cast<ffsm2::StateID>(i + 1))) { violation("plan-append", rp, "N=%d: task %d of %d refused", N, i, N - 1); return; } }
+	const int CH = (N - 1 < TASKCAP ? N - 1 : TASKCAP) + 1;   // the chain visits states 0..CH-1 (as many tasks as the capacity admits); the next append must be refused
+	{ auto p = q.plan(); for (int i = 0; i + 1 < CH; ++i) if (!p.change(static_cast<ffsm2::StateID>(i), static_cast<ffsm2::StateID>(i + 1))) { violation("plan-append", rp, "N=%d capacity %d: task %d of %d refused", N, TASKCAP, i, CH - 1); return; }
+		if (CH - 1 == TASKCAP && N > 1) { if (p.change(0, static_cast<ffsm2::StateID>(N - 1))) { violation("plan-append", rp, "N=%d: task %d accepted by a plan of capacity %d", N, TASKCAP + 1, TASKCAP); return; } } }
 	g_succeed_in_update = true;
-	for (int i = 0; i + 1 < N; ++i) { q.update(); ++me().cases;
+	for (int i = 0; i + 1 < CH; ++i) { q.update(); ++me().cases;
 		if (q.activeStateId() != i + 1) { violation("plan-walk", rp, "N=%d: after %d successful cycles state %d is active, the plan leads to %d", N, i + 1, q.activeStateId(), i + 1); g_succeed_in_update = false; return; }
-		if (g_plan_ok || g_plan_fail) { violation("plan-outcome-early", rp, "N=%d: outcome callback after %d of %d tasks", N, i + 1, N - 1); g_succeed_in_update = false; return; } }
+		if (g_plan_ok || g_plan_fail) { violation("plan-outcome-early", rp, "N=%d: outcome callback after %d of %d tasks", N, i + 1, CH - 1); g_succeed_in_update = false; return; } }
 	if (N > 1) { q.update(); ++me().cases; if (VX_HEAD && (g_plan_ok != 1 || g_plan_fail)) violation("plan-outcome", rp, "N=%d: planSucceeded x%d planFailed x%d after the last task, expected exactly one planSucceeded", N, g_plan_ok, g_plan_fail); }
 	g_succeed_in_update = false;
 	check_marks(q, rp, "after walking a plan through every state");
